@@ -131,6 +131,36 @@ class OptRunner:
             self.params.append(gen.make_params(g["shapes"], config.get("pseed", 0) * 17 + gi, self.pdts[gi], g["cfg"].get("gscale", 1.0)))
             self.shapes.append(g["shapes"])
         dicts, self.eff = group_dicts(config, self.params)
+        # frozen parameters (requires_grad=False, e.g. a frozen embedding listed first in its group): never receive a gradient
+        self.frozen: list[list[bool]] = []
+        for gi, g in enumerate(self.groups):
+            fz = list(g.get("frozen") or [])[: len(g["shapes"])]
+            fz += [False] * (len(g["shapes"]) - len(fz))
+            if all(fz):
+                fz[-1] = False
+            self.frozen.append(fz)
+            for p, z in zip(self.params[gi], fz):
+                if z:
+                    p.requires_grad_(False)
+        # the library's loggers at DEBUG for the duration of the case: message arguments are then evaluated (observability must not change behaviour)
+        self._log_levels: list = []
+        import logging
+
+        _LIB_LOGGERS = ("distributed_shampoo", "distributed_shampoo.distributed_shampoo", "distributed_shampoo.utils.shampoo_preconditioner_list",
+                        "distributed_shampoo.utils.shampoo_distributor", "matrix_functions", "optimizer_modules")
+        if not config.get("debug_logging"):
+            for name in _LIB_LOGGERS:  # a defined baseline, whatever an earlier case in this worker process left behind
+                logging.getLogger(name).setLevel(logging.WARNING)
+        if config.get("debug_logging"):
+            for name in ("distributed_shampoo", "distributed_shampoo.distributed_shampoo", "distributed_shampoo.utils.shampoo_preconditioner_list",
+                         "distributed_shampoo.utils.shampoo_distributor", "matrix_functions", "optimizer_modules"):
+                lg = logging.getLogger(name)
+                self._log_levels.append((lg, lg.level, lg.propagate, lg.disabled))
+                lg.setLevel(logging.DEBUG)
+                lg.propagate = False
+                lg.disabled = False
+                if not any(isinstance(h, logging.NullHandler) for h in lg.handlers):
+                    lg.addHandler(logging.NullHandler())
         self.lr_tensor = bool(config.get("lr_tensor"))
         extra = dict(extra or {})
         if self.lr_tensor:
@@ -227,7 +257,21 @@ class OptRunner:
             self.stats["ckpt_rollbacks"] = self.stats.get("ckpt_rollbacks", 0) + 1
         return []
 
+    def _mask_frozen(self, mask: list) -> list:
+        flat = [z for fz in self.frozen for z in fz]
+        return [bool(m) and not z for m, z in zip(mask, flat)]
+
+    def restore_logging(self) -> None:
+        import logging
+
+        for lg, level, prop, dis in self._log_levels:
+            lg.setLevel(logging.WARNING)
+            lg.propagate = prop
+            lg.disabled = dis
+        self._log_levels = []
+
     def make_grads(self, s: dict) -> list[list[torch.Tensor | None]]:
+        s = dict(s, mask=self._mask_frozen(s["mask"]))
         idx = 0
         grads: list[list[torch.Tensor | None]] = []
         for gi, g in enumerate(self.groups):
@@ -276,7 +320,7 @@ class OptRunner:
                 return fails
         if "edits" in s:
             self.apply_edits(s["edits"])
-        mask = s["mask"]
+        mask = self._mask_frozen(s["mask"])
         if self._prev_mask is not None and mask != self._prev_mask and any(mask) and any(self._prev_mask):
             self.stats["mask_changes"] += 1
         if not any(mask):
@@ -506,6 +550,11 @@ class OptRunner:
     def finish(self) -> Outcome:
         out = self.out
         st = self.stats
+        if self._log_levels:
+            out.classes.append("library_loggers_at_debug")
+            self.restore_logging()
+        if any(any(fz) for fz in self.frozen):
+            out.classes.append("frozen_parameter" + ("_first_in_group" if any(fz[0] for fz in self.frozen) else ""))
         out.nontrivial = self.nontrivial_rule()
         cl = out.classes
         if st["equal_shape_partial_mask"]:
@@ -592,6 +641,12 @@ def st_history_config(max_groups: int = 3, max_params: int = 4, max_numel: int =
             groups.append(g)
         c = {"groups": groups, "pseed": draw(st.integers(0, 10**6))}
         gb = draw(st.sampled_from([None, None, None, "rowsparse", "rowsparse", "onehot", "sparse", "rank1"]))
+        if draw(st.sampled_from([False] * 7 + [True])):
+            c["debug_logging"] = True
+        if draw(st.sampled_from([False] * 7 + [True])):
+            gz = groups[draw(st.integers(0, len(groups) - 1))]
+            if len(gz["shapes"]) >= 2:
+                gz["frozen"] = [True] + [draw(st.sampled_from([False, False, True])) for _ in gz["shapes"][1:]]
         if lr_tensor and draw(st.sampled_from([False] * 5 + [True])):
             c["lr_tensor"] = True  # learning rate held as a 0-d tensor and edited in place by the schedule
         if gb is not None:
